@@ -65,6 +65,8 @@ def _np():
 
 
 ACCS = {
+    # a seed given by value that is a mutable buffer (bytearray): every key starts from a copy of it
+    'bytearr': (lambda a, x: a + bytearray([x % 251]), lambda a, x: a + bytearray([x % 251]), lambda: bytearray(b'ab'), False),
     # a numpy vector as running value: comparing it with anything yields an array, not a bool
     'npvec': (lambda a, x: a + x, lambda a, x: a + x, lambda: _np().zeros(2), False),
     'isum_tn': (lambda a, x: a + x, lambda a, x: a + x, lambda: 0, False),
@@ -85,6 +87,7 @@ ACCS = {
     'nested': (_acc_nested, lambda a, x: [a[0] + [x], a[1] + 1], lambda: [[], 0], True),
 }
 TERMS = {
+    'bytearr': lambda a: bytes(a) + b'T',
     'npvec': lambda a: a * 2,
     'big_isum': lambda a: a - 1, 'enum': lambda a: a.name,
     # a terminator whose legitimate result is None for some keys ('no reading above the threshold')
@@ -390,7 +393,7 @@ def check_reentrant(case):
 
 DERIVED = [['count', False], ['count', True], ['sum', False], ['sum', True], ['mean', False], ['mean', True], ['min', False], ['min', True],
            ['max', False], ['max', True], ['variance', False], ['variance', True], ['stddev', True], ['fvariance', False], ['fstddev', True],
-           ['to_list'], ['to_array'], ['batch', 1], ['batch', 2], ['batch', 3], ['duc', 0], ['duc', 2], ['progress', 1], ['progress', 2],
+           ['to_list'], ['to_array'], ['to_array', 'd'], ['to_array', 'u'], ['to_array', 'i'], ['batch', 1], ['batch', 2], ['batch', 3], ['duc', 0], ['duc', 2], ['progress', 1], ['progress', 2],
            ['progress', 3], ['dist', False], ['dist', True]]
 
 
